@@ -50,6 +50,11 @@ func c07Graphs(thorough bool) []c07Graph {
 		c07Graph{desc: "relative-with-extension", files: map[string]string{"pages/p.vuego": c07Page("wrap.vuego"), "pages/wrap.vuego": c07Layout("rel-wrap", "", "")}, page: "pages/p.vuego", want: []string{"rel-wrap", "page"}},
 		c07Graph{desc: "fallback-to-layouts-dir", files: map[string]string{"pages/p.vuego": c07Page("post"), "layouts/post.vuego": c07Layout("dir-post", "", "")}, page: "pages/p.vuego", want: []string{"dir-post", "page"}},
 		c07Graph{desc: "relative-chain-from-layout-dir", files: map[string]string{"pages/p.vuego": c07Page("post"), "layouts/post.vuego": c07Layout("post", "outer", ""), "layouts/outer.vuego": c07Layout("outer", "", ""), "pages/outer.vuego": c07Layout("wrong-outer", "", "")}, page: "pages/p.vuego", want: []string{"outer", "post", "page"}},
+		// layout names whose last element contains a dot: the name is still a name, `.vuego` is appended to it
+		c07Graph{desc: "dotted-name-in-layouts-dir", files: map[string]string{"p.vuego": c07Page("post.amp"), "layouts/post.amp.vuego": c07Layout("post.amp", "", "")}, want: []string{"post.amp", "page"}},
+		c07Graph{desc: "dotted-name-relative-before-layouts", files: map[string]string{"pages/p.vuego": c07Page("card.v2"), "pages/card.v2.vuego": c07Layout("rel-card", "", ""), "layouts/card.v2.vuego": c07Layout("dir-card", "", "")}, page: "pages/p.vuego", want: []string{"rel-card", "page"}},
+		c07Graph{desc: "dotted-name-inside-chain", files: map[string]string{"p.vuego": c07Page("a"), "layouts/a.vuego": c07Layout("a", "site.min", ""), "layouts/site.min.vuego": c07Layout("site.min", "", "")}, want: []string{"site.min", "a", "page"}},
+		c07Graph{desc: "dotted-name-fallback-from-subdir", files: map[string]string{"pages/p.vuego": c07Page("v1.2"), "layouts/v1.2.vuego": c07Layout("v1.2", "", "")}, page: "pages/p.vuego", want: []string{"v1.2", "page"}},
 		c07Graph{desc: "self-cycle", files: map[string]string{"p.vuego": c07Page("a"), "layouts/a.vuego": c07Layout("a", "a", "")}, wantErr: true},
 		c07Graph{desc: "cycle-2", files: map[string]string{"p.vuego": c07Page("a"), "layouts/a.vuego": c07Layout("a", "b", ""), "layouts/b.vuego": c07Layout("b", "a", "")}, wantErr: true},
 		c07Graph{desc: "cycle-3", files: map[string]string{"p.vuego": c07Page("a"), "layouts/a.vuego": c07Layout("a", "b", ""), "layouts/b.vuego": c07Layout("b", "c", ""), "layouts/c.vuego": c07Layout("c", "a", "")}, wantErr: true},
